@@ -91,6 +91,9 @@ func genUnit(r *hx.Rand, i int) interface{} {
 			}
 		}
 	}
+	if r.Chance(1, 20) {
+		in.Wire = append(in.Wire, genBlankLines(r, r.Pick(managedNames[:7]), false)...)
+	}
 	if r.Chance(1, 25) {
 		in.Wire = append(in.Wire, wireHdr{"X-Forwarded-For", nil})
 	}
